@@ -400,4 +400,35 @@ example : (frun .asCoded fwdA fwdB (finit fwdA fwdB) fwdLostRun).ph = .done .err
     (frun .asCoded fwdA fwdB (finit fwdA fwdB) fwdLostRun).b.emitted.length = 2 ∧
     Out.eos ∈ (frun .asCoded fwdA fwdB (finit fwdA fwdB) fwdLostRun).b.outs := by decide
 
+/-- the origin drops its sender in the middle of a chunk stream: `Finished` reaches the forwarder inside its chunk
+loop, `recv_chunk` reports `Cancelled` (the `ChunkSender` is dropped, nothing is completed), the next `recv_any`
+returns `None` at once and `forward` returns `Ok` -/
+def fwdFinInStreamRun : List FLabel :=
+  [.up .startChunks, .up (.chunkSend [1,2,3,4,5,6,7] false), .up .request, .up .emit, .up .emit, .up .cancel,
+   .up .dropSender, .up .muxRecv, .up .muxRecv, .up .muxRecv, .recvAny, .recvAny,
+   .recvChunk, .down .request, .emit, .recvChunk, .down .request, .emit, .recvChunk, .recvAny]
+example : (frun .asCoded fwdA fwdB (finit fwdA fwdB) fwdFinInStreamRun).ph = .done .ok ∧
+    (frun .asCoded fwdA fwdB (finit fwdA fwdB) fwdFinInStreamRun).b.completed = [] ∧
+    Out.cancelled ∈ (frun .asCoded fwdA fwdB (finit fwdA fwdB) fwdFinInStreamRun).a.outs ∧
+    Out.eos ∉ (frun .asCoded fwdA fwdB (finit fwdA fwdB) fwdFinInStreamRun).a.outs ∧
+    (frun .asCoded fwdA fwdB (finit fwdA fwdB) fwdFinInStreamRun).a.r.finished = true := by decide
+
+/-- **Witness of finding F-FWD-1** (a run of the model as the code is, not a theorem about all runs): the
+destination receiver (buffer 4) is closed gracefully and then dropped while the forwarder holds the second chunk
+of a message and has no credits.  `ReceiveFinish` after `ReceiveClose` leaves `closed = some true` (mux.rs: the first
+notification wins), with the override the credit request is not refused, no credits will ever arrive: neither
+`fail` nor `request` nor `emit` nor the `Closed` branch is enabled — the forwarder is wedged in `chunkSend`, and the
+origin's sender has not been told anything. -/
+def fwdWedgeB : Cfg := { chunk := 4, limit := 4, maxData := 100, maxPorts := 8, ovr := true }
+def fwdWedgeRun : List FLabel :=
+  [.up (.startSend [1,2,3,4,5,6]), .up .request, .up .emit, .up .emit, .up .muxRecv, .up .muxRecv,
+   .recvAny, .recvAny, .recvChunk, .down .request, .emit, .recvChunk,
+   .down .close, .down .provide, .down .dropReceiver, .down .provide]
+example :
+    let f := frun .asCoded fwdA fwdWedgeB (finit fwdA fwdWedgeB) fwdWedgeRun
+    f.ph = .chunkSend ∧ f.b.s.closed = some true ∧ f.b.r.dropped = true ∧ f.b.s.pool = 0 ∧ f.b.back = [] ∧
+    f.a.s.closed = none ∧ f.a.r.closed = false ∧
+    (fstep .asCoded fwdA fwdWedgeB f .fail).isNone ∧ (fstep .asCoded fwdA fwdWedgeB f (.down .request)).isNone ∧
+    (fstep .asCoded fwdA fwdWedgeB f .emit).isNone ∧ (fstep .asCoded fwdA fwdWedgeB f .closedEvt).isNone := by decide
+
 end Remoc.Link
